@@ -103,6 +103,17 @@ ClosedNotStored == NoDeadEntry
 Invariants == Alternate /\ LogMatchesListing /\ NoDeadEntry /\ DistinctConnections
               /\ SubscriberTracksListing /\ SubscriberAlternates
 
+(* MC_Ap refines the abstract model ApProof, whose invariant is proved by TLAPS for any  *)
+(* number of peers and connections: TLC checks the refinement mapping on this instance. *)
+LastKind(p) == LET s == PeerEvents(Own, p) IN IF s = <<>> THEN "none" ELSE s[Len(s)].kind
+AP == INSTANCE ApProof WITH
+        Peers <- Peers, Gids <- Gids, PeerOf <- PeerOfGid, None <- 0,
+        stored <- [p \in Peers |-> IF p \in DOMAIN active[Own] THEN active[Own][p].gid ELSE 0],
+        last <- [p \in Peers |-> LastKind(p)],
+        closed <- closedL[Own],
+        ok <- Alternate
+RefinesApProof == AP!Spec
+
 Emit == (Depth > 0 /\ Len(hist) = Depth) =>
           PrintT(<<"REPLAY", ToJson([own |-> Own, steps |-> hist])>>)
 DepthBound == Depth = 0 \/ Len(hist) <= Depth
